@@ -453,7 +453,7 @@ func init() {
 					if d := oracle.Equal(o.res, base.res, tol); d != "" {
 						return violation("%sdeadline %dus: successful result differs from the complete result: %s", caseHdr(c), us, d)
 					}
-				} else if !errors.Is(o.res.Err, context.DeadlineExceeded) && !strings.Contains(o.res.Err.Error(), "deadline exceeded") {
+				} else if base.res.Err == nil && !errors.Is(o.res.Err, context.DeadlineExceeded) && !strings.Contains(o.res.Err.Error(), "deadline exceeded") {
 					return violation("%sdeadline %dus: Exec returned an error that is not the context's: %v", caseHdr(c), us, o.res.Err)
 				}
 				if !WaitQuiet(3 * time.Second) {
